@@ -4,6 +4,7 @@
    Print Assumptions of whatever mentions py_round_mul; the C05 theorems therefore quantify over
    an arbitrary rounding function and only the model instantiates it with py_round_mul. *)
 From Coq Require Import ZArith Uint63 PrimFloat FloatOps SpecFloat Lia.
+From LK Require Export Lib.PyRoundZ.
 Open Scope Z_scope.
 
 (* exact value of a finite float as mantissa * 2^exp *)
@@ -14,13 +15,6 @@ Definition f2me (f : float) : option (Z * Z) :=
   | _ => None
   end.
 
-(* round-half-even of m * 2^e to an integer *)
-Definition round_half_even (m e : Z) : Z :=
-  if 0 <=? e then m * 2 ^ e else
-  let d := 2 ^ (- e) in
-  let q := m / d in let r := m mod d in
-  if 2 * r <? d then q else if d <? 2 * r then q + 1 else if Z.even q then q else q + 1.
-
 (* None: the product is NaN or infinite (Python raises) *)
 Definition py_round_mul (len : Z) (frac : float) : option Z :=
   match f2me (PrimFloat.mul (of_uint63 (Uint63.of_Z len)) frac) with
@@ -28,17 +22,3 @@ Definition py_round_mul (len : Z) (frac : float) : option Z :=
   | None => None
   end.
 
-(* the rounded value is a nearest integer: |round * d - m| <= d / 2 with d = 2^-e *)
-Lemma round_half_even_nearest m e : e < 0 ->
-  let d := 2 ^ (- e) in 2 * Z.abs (round_half_even m e * d - m) <= d.
-Proof.
-  intros He d. unfold round_half_even. assert ((0 <=? e) = false) as T by (apply Z.leb_gt; exact He). rewrite T.
-  fold d. assert (0 < d) as Hd by (apply Z.pow_pos_nonneg; lia).
-  pose proof (Z.div_mod m d ltac:(lia)) as DM. pose proof (Z.mod_pos_bound m d Hd) as MB.
-  set (q := m / d) in *. set (r := m mod d) in *.
-  destruct (2 * r <? d) eqn:A; [apply Z.ltb_lt in A; nia|]. apply Z.ltb_ge in A.
-  destruct (d <? 2 * r) eqn:B; [apply Z.ltb_lt in B; nia|]. apply Z.ltb_ge in B.
-  destruct (Z.even q); nia.
-Qed.
-Lemma round_half_even_exact m e : 0 <= e -> round_half_even m e = m * 2 ^ e.
-Proof. intro H. unfold round_half_even. assert ((0 <=? e) = true) as T by (apply Z.leb_le; exact H). rewrite T. reflexivity. Qed.
